@@ -13,11 +13,18 @@ LEVEL = "exploration"
 PT = {"triple": 1, "quad": 2, "graph": 3}
 
 
-def serialize_both(cls: str, seq, preset, fs: int):
+def serialize_both(cls: str, seq, preset, fs: int, variant: str = ""):
     """Same neutral input, same explicit options, both integrations -> (generic, rdflib) bytes."""
     out = []
     for api in ("generic", "rdflib"):
-        opts = DR.make_options(cls, preset, fs, True, generalized=False, rdf_star=False)
+        opts = DR.make_options(cls, preset, fs, variant != "non-delimited", generalized=False,
+                               rdf_star=False,
+                               **({"logical": 0} if variant in ("non-delimited", "bounded-flow")
+                                  else {}))
+        if variant == "bounded-flow":
+            from pyjelly.serialize import flows  # noqa: PLC0415
+
+            opts.flow = flows.BoundedFrameFlow(frame_size=3)
         conv = T.st_to_generic if api == "generic" else T.st_to_rdflib
         stmts = [conv(s) for s in seq]
         if api == "generic":
@@ -43,7 +50,7 @@ def serialize_both(cls: str, seq, preset, fs: int):
             last = stream.flow.to_stream_frame()
             if last is not None:
                 frames.append(last)
-        out.append(DR.frames_to_bytes(frames, True))
+        out.append(DR.frames_to_bytes(frames, variant != "non-delimited"))
     return out
 
 
@@ -154,6 +161,19 @@ def run_case(case: dict) -> list[tuple[str, str]]:
         fails += agree(parse_all(gb))
         if gb != rb:
             fails += agree(parse_all(rb))
+        if case["frame_size"] == 250 and cls != "graph":
+            # other legal ways of configuring the stream: no logical type stated, with
+            # non-delimited output or with an explicit bounded flow object
+            for variant in ("non-delimited", "bounded-flow"):
+                try:
+                    g2, r2 = serialize_both(cls, seq, preset, 250, variant)
+                except Exception as e:  # noqa: BLE001
+                    fails.append(("serialize-raised", f"{variant}: {type(e).__name__}: {e}"))
+                    continue
+                if g2 != r2:
+                    fails.append(("serializers-differ",
+                                  f"{variant}: generic wrote {len(g2)} bytes, rdflib wrote "
+                                  f"{len(r2)} bytes"))
         if case["frame_size"] == 250 and len(seq) >= 2:
             # the same rows with a frame per row (frames that hold lookup entries only, or only
             # the start / end of a graph)
